@@ -68,11 +68,13 @@ pub fn gen_c14(run: &mut Run, seed: u64, thorough: bool) {
             };
             match kind {
                 0..=3 => {
-                    let (amt, ac) = match rng.below(7) {
+                    let (amt, ac) = match rng.below(9) {
                         0 => (0, "amt0"),
                         1 => (-1, "amt-neg"),
                         2 => (sp_bal, "amt-bal"),
                         3 => (sp_bal + 1, "amt-bal+1"),
+                        4 => (1, "amt1"), // the smallest positive amount
+                        5 => (2, "amt2"),
                         _ => (rng.range(1, 40) as i128, "amt-small"),
                     };
                     let (auth, aucl) = pick_auth(&spender, &mut rng, true);
@@ -91,23 +93,27 @@ pub fn gen_c14(run: &mut Run, seed: u64, thorough: bool) {
                     }
                 }
                 4..=6 => {
-                    let (amt, ac) = match rng.below(7) {
+                    let (amt, ac) = match rng.below(9) {
                         0 => (0, "amt0"),
                         1 => (-1, "amt-neg"),
                         2 => (svc_bal, "amt-exact"),
                         3 => (svc_bal + 1, "amt-exact+1"),
                         4 => (svc_bal - 1, "amt-exact-1"),
+                        5 => (1, "amt1"),
+                        6 => (2, "amt2"),
                         _ => (rng.range(1, 20) as i128, "amt-small"),
                     };
                     let (auth, aucl) = pick_auth(&collector, &mut rng, false);
                     run.op(&format!("gs.collect_fees {} {} {} {}", receiver.tok(), tok.tok(), amt, auth), &format!("collect{tcls}-{ac}-{aucl}"));
                 }
                 7 | 8 => {
-                    let (amt, ac) = match rng.below(7) {
+                    let (amt, ac) = match rng.below(9) {
                         0 => (0, "amt0"),
                         1 => (-1, "amt-neg"),
                         2 => (svc_bal, "amt-exact"),
                         3 => (svc_bal + 1, "amt-exact+1"),
+                        4 => (1, "amt1"),
+                        5 => (2, "amt2"),
                         _ => (rng.range(1, 20) as i128, "amt-small"),
                     };
                     let (auth, aucl) = pick_auth(&collector, &mut rng, false);
